@@ -95,6 +95,7 @@ def right_cols(keycols, n):
         ["rb", "b1", [i % 2 == 0 for i in range(n)]],
         ["rs", "str", [None if i == 1 else "R" + str(i) for i in range(n)]],
         ["rd", "D", ["2001-01-0" + str(i + 1) for i in range(n)]],
+        ["rt", "td", [str(i + 1) for i in range(n)]],   # durations: an integer subtype for NumPy, with NaT as missing value
         ["p", "str", ["clash" + str(i) for i in range(n)]],
         # right-hand columns named like DataFrame / dict attributes are ordinary columns too
         ["count", "i8", [40 + i for i in range(n)]],
